@@ -23,6 +23,8 @@ ORACLES = {
     "C06.footer": "the reference reader re-derives (m, k) from the footer like the C library and the file length matches ceil(m/8)+20 / 4m+20 / "
                   "4wd+16",
     "C06.export": "no export raises",
+    "C06.sizing_sweep": "for every est_elements of long consecutive ranges (millions of values per rate) the library derives exactly the (number_bits, "
+                        "number_hashes) the C reference derives from the footer values - the reader has nothing else to find the cells with",
     "C06.no_exception": "(soft) an exception while replaying the history abandons the case; counted, not reported",
 }
 RULE = ("'Programs': every generated operation history is a program for the reference WRITER, every exported file a program for the reference "
@@ -339,9 +341,51 @@ def _cuckoo(case, ctx):
     return added >= 3 and members >= 1 and nonmembers >= 1
 
 
+def exhaustive(tier):
+    # the footer stores est_elements and the rate, NOT the number of bits: reader and writer agree on the layout only if both derive
+    # the same (m, k) for every (n, p).  A different but mathematically equal way of computing the constants moves m by one for about
+    # one n in several million (where -n ln p / ln^2 2 falls within a few ulp of an integer), which no sampled geometry ever meets:
+    # consecutive ranges are swept instead (sizing routine only, no filter is built)
+    chunk = 250000
+    spans = [(0.01, 4000000, 8000000), (0.05, 4000000, 6000000)] if tier == "quick" else \
+        [(0.01, 1000000, 21000000), (0.05, 1000000, 17000000), (0.001, 1000000, 13000000), (0.1, 1000000, 9000000), (0.0001, 1000000, 9000000)]
+
+    def gen_():
+        for p, lo, hi in spans:
+            for n0 in range(lo, hi, chunk):
+                yield {"t": "sweep", "p": p, "n0": n0, "count": min(chunk, hi - n0)}
+
+    return [("sizing_sweep_%d_values" % sum(hi - lo for _, lo, hi in spans), gen_)]
+
+
+def _sweep(case, ctx):
+    from probables import BloomFilter
+
+    sizing = getattr(BloomFilter, "_get_optimized_params", None)
+    if sizing is None:
+        ctx.feat("skipped_no_private_sizing")
+        return False
+    p, n0, count = case["p"], case["n0"], case["count"]
+    ms, ks = cref.bloom_params_sweep(n0, count, p)
+    bad = None
+    for i in range(count):
+        rp, k, m = sizing(n0 + i, p)
+        if m != ms[i] or k != ks[i]:
+            bad = (n0 + i, m, k, ms[i], ks[i])
+            break
+    ctx.check("C06.sizing_sweep", bad is None,
+              lambda: f"est_elements={bad[0]} rate={p}: the library derives (bits, hashes) = ({bad[1]}, {bad[2]}), the C reference ({bad[3]}, {bad[4]})")
+    ctx.feat("sweep_rate_%s" % p)
+    ctx.op("sweep", p, n0, count)
+    return True
+
+
 def run_case(case, ctx):
     t = case["t"]
     ctx.soft_noexc = True
+    if t == "sweep":
+        ctx.nt(_sweep(case, ctx))
+        return
     if t in ("bloom", "ondisk"):
         nt = _bloom(case, ctx)
     elif t == "cbloom":
